@@ -145,6 +145,9 @@ const ARRAY_KEYS: &[(&str, &[&str])] = &[
     ("runtime.requireLikeFunction", &["\"import\"", "\"load\"", "\"include\""]),
     ("runtime.extensions", &["\".lua\"", "\".lua.txt\"", "\".luau\""]),
     ("workspace.ignoreDir", &["\"build\"", "\"dist\"", "\".git\""]),
+    // arrays whose items are objects (or a mix of strings and objects)
+    ("workspace.library", &["\"/libs/a\"", "{\"path\": \"/libs/b\"}", "{\"path\": \"/libs/c\", \"ignoreDir\": [\"test\"]}", "{\"path\": \"/libs/d\"}", "\"/libs/e\""]),
+    ("workspace.moduleMap", &["{\"pattern\": \"^lib(.*)$\", \"replace\": \"script$1\"}", "{\"pattern\": \"^a\\\\.(.*)$\", \"replace\": \"b.$1\"}", "{\"pattern\": \"^x$\", \"replace\": \"y\"}"]),
 ];
 
 fn set_key(obj: &mut serde_json::Map<String, Value>, dotted: &str, v: Value, flat: bool) {
